@@ -65,20 +65,45 @@ def full_alphabet(ctx, keys, grid, vals):
     return ops
 
 
+def build_prefix(ctx, keys, vals, order):
+    idx = list(range(len(keys)))
+    if order == 'desc':
+        idx.reverse()
+    elif order == 'mid':        # middle-out: splits happen on both flanks
+        idx.sort(key=lambda i: (abs(i - len(keys) // 2), i))
+    elif order != 'asc':
+        raise ValueError(order)
+    if ctx.is_map:
+        return tuple(('setitem', keys[i], vals[i % 2]) for i in idx)
+    return tuple(('add', keys[i]) for i in idx)
+
+
+def delete_alphabet(ctx, keys):
+    if ctx.is_map:
+        return [('delitem', k) for k in keys]
+    return [('remove', k) for k in keys]
+
+
 def explorer(fam, kind, impl, sizes, n, variant, prop, alphabet='slim', check_ops=False,
-             max_states=None, subclass=False):
+             max_states=None, subclass=False, thin=None):
     ctx = O.Ctx(fam, kind, impl, subclass_sizes=sizes if subclass else None)
     keys, grid = F.universe(fam, n, variant)
     vals = F.values(fam)
-    if alphabet == 'slim':
+    prefix = ()
+    if thin:
+        # 'thinning space': scripted build of all n keys in the given order, then BFS over
+        # deletions only (every subset of keys removed, in every order that changes the shape)
+        prefix = build_prefix(ctx, keys, vals, thin)
+        alpha = delete_alphabet(ctx, keys)
+    elif alphabet == 'slim':
         alpha = slim_alphabet(ctx, keys, vals)
     else:
         alpha = full_alphabet(ctx, keys, grid, vals)
     if sizes and not subclass:
         F.set_sizes(fam, *sizes)
     ex = Explorer(ctx, alpha, sizes=sizes, prop=prop, check_ops=check_ops,
-                  max_states=max_states,
-                  base_case=dict(n=n, variant=variant))
+                  max_states=max_states, prefix=prefix,
+                  base_case=dict(n=n, variant=variant, thin=thin))
     ex.keys, ex.grid, ex.vals = keys, grid, vals
     return ex
 
@@ -91,7 +116,7 @@ def result(ex, extra_eval=0, **more):
              exhaustive=ex.exhaustive, guards=g,
              outcomes={'%s/%s/%s' % k if isinstance(k, tuple) else str(k): v
                        for k, v in ex.outcomes.items()},
-             violations=ex.violations, sample=ex.sample)
+             violations=ex.violations + ex.known, sample=ex.sample)
     d.update(more)
     return d
 
